@@ -4,7 +4,8 @@
   tools/seeded.py confirm <patch.diff> <demo.py>      demo passes on the unchanged tree, fails with the patch,
                                                       and the repository's test suite still passes with it
   tools/seeded.py check <patch.diff> <ID> [<ID> ...]  run the given checks against a patched scratch copy
-  tools/seeded.py all [--tier quick]                  run every seeded change against the property it breaks
+  tools/seeded.py all [--tier quick] [--only PREFIX]  run every seeded change (or those whose name starts with PREFIX,
+                                                      merging into RESULTS.json) against the checks its meta.json lists
 
 Everything happens in a scratch copy of /repo under /tmp (removed afterwards); /repo is never modified.
 """
@@ -114,7 +115,8 @@ def main():
             tier = sys.argv[sys.argv.index("--tier") + 1]
         base = os.path.join(ROOT, "seeded")
         res = []
-        for name in sorted(os.listdir(base)):
+        only = sys.argv[sys.argv.index("--only") + 1] if "--only" in sys.argv else ""      # name prefix; results are merged
+        for name in sorted(n for n in os.listdir(base) if n.startswith(only)):
             d = os.path.join(base, name)
             meta = os.path.join(d, "meta.json")
             if not os.path.exists(meta):
@@ -122,7 +124,9 @@ def main():
             m = json.load(open(meta))
             r = check(os.path.join(d, "patch.diff"), m.get("checks", [m["property"]]), tier)
             res.append((name, r))
-        json.dump({n: r for n, r in res}, open(os.path.join(base, "RESULTS.json"), "w"), indent=1, sort_keys=True)
+        merged = json.load(open(os.path.join(base, "RESULTS.json"))) if only and os.path.exists(os.path.join(base, "RESULTS.json")) else {}
+        merged.update({n: r for n, r in res})
+        json.dump(merged, open(os.path.join(base, "RESULTS.json"), "w"), indent=1, sort_keys=True)
         missed = [n for n, r in res if not any(v == "CAUGHT" for v in r.values())]
         print("seeded changes: %d, caught by at least one listed check: %d, missed: %s" % (len(res), len(res) - len(missed), missed))
 
